@@ -26,7 +26,17 @@ RULE = ('Every release protocol of the README (30) x every core packet that '
         'and meaning; the full product when it has <= 400 (thorough: 4000) '
         'members, otherwise '
         'every alphabet member of every field with the other fields at '
-        'pairwise-different base values, plus the diagonals.  Each vector is '
+        'pairwise-different base values, plus the diagonals; plus, for the '
+        'string of status response, login disconnect, play disconnect and '
+        'clientbound chat, one vector per LONG string (other fields at base '
+        'values): multi-byte characters whose UTF-8 length lies at and '
+        'across 32767 bytes (32766/32767/32768/32769 bytes from 3-byte and '
+        '2-byte characters, a JSON-shaped one, 32767 three-byte characters '
+        '= 98301 bytes; thorough adds 4-byte characters and more) while the '
+        'character count stays <= 32767, the documented limit of those '
+        'fields; serverbound chat goes up to its documented 100 (before '
+        '1.11) / 256 characters of 3-byte characters and no further.  '
+        'Each vector is '
         'executed three ways on the real classes: (a) Packet.write bytes == '
         'reference frame bytes, (b) Packet.read of the reference payload '
         'gives the same values and consumes exactly, and once per (release, '
@@ -37,8 +47,38 @@ RULE = ('Every release protocol of the README (30) x every core packet that '
         'request/response before 1.13): (d) the mapped class is in no '
         'entry of the reactor\'s id->class dict (clientbound) / not in '
         'the serverbound get_packets set of that state.  '
+        '(e) Echo, per release x boundary id: the reference bytes of a '
+        'clientbound keep-alive are decoded by pyCraft, keep_alive_id is '
+        'copied into a new serverbound KeepAlivePacket the way '
+        'PlayingReactor.react does, the context is set the way '
+        'Connection.write_packet does, and Packet.write must give the '
+        'reference serverbound keep-alive frame of the same wire pattern; '
+        'ids are wire patterns: for VarInt releases (47-338) the VarInt '
+        'alphabet as unsigned 32-bit patterns plus 0x7FFFFFFF, 0x80000000, '
+        '0x80000001, 0xFFFFFF7F, 0xFFFFFFFF, 0xDEADBEEF; for Long releases '
+        'the Long alphabet with the signed 64-bit boundaries; the same echo '
+        'teleport_id of clientbound player-position-and-look -> serverbound '
+        'teleport confirm from 1.9 on.  How pyCraft represents the id in '
+        'between (signed, unsigned) is not looked at.  '
+        'All of (a)-(e) are executed in three context regimes, each judged '
+        'against the same reference: FRESH (a new ConnectionContext per '
+        'case); RE-ASSIGNED (one ConnectionContext object whose '
+        'protocol_version is assigned in place, as Connection.connect '
+        'does, walking the releases oldest -> newest -> oldest, 59 visits, '
+        'so that every release is entered from its older and from its '
+        'newer neighbour); LONG-LIVED (30 contexts, one per release, all '
+        'created up front, used alternately in the order 47, 757, 107, '
+        '756, ... 60 visits).  The last two regimes are walked by 16 '
+        'independent walks each (own context objects); walk k re-judges '
+        'on every visit of a release the vectors k, k+16, k+32, ... of '
+        'every packet of that release, so the union over the walks is '
+        'every vector; walk 0 also carries (c), (d) and (e).  A violation '
+        'seen in a walk is reported under its own key unless the same '
+        'case already fails with a fresh context.  '
         'Vectors are de-duplicated, so all cases are distinct by '
-        'construction; a case is non-trivial when the packet has a field.  '
+        'construction ((regime, release, packet, vector); repeated visits '
+        'of a walk are counted as evaluations only); a case is '
+        'non-trivial when the packet has a field.  '
         'The seed adds members to the alphabets and permutes order.')
 ASSUMPTIONS = [
     'the table in vf/refproto/releases.py is a from-memory transcription of '
@@ -50,6 +90,19 @@ ASSUMPTIONS = [
     'that byte is not judged)',
     'third-party pynbt is trusted to implement NBT; what is judged is how '
     'pyCraft frames NBT inside Join Game (named root, position in packet)',
+    'the documented string limits count characters (Chat / status JSON / '
+    'disconnect reason: 32767 before 1.13, more later; serverbound chat 100, '
+    'from 1.11 256), the length prefix counts UTF-8 bytes, and a string of n '
+    'characters may legally take up to 3n bytes (4n for characters outside '
+    'the BMP, used in the thorough tier with n <= 8192 only); the long '
+    'strings stay within every one of these',
+    'every bit pattern of the wire type is a legal keep-alive id and '
+    'teleport id (vanilla servers up to 1.12.1 take the keep-alive id from '
+    'the low 32 bits of a clock, so the top bit is set half of the time); '
+    'the echo rule compares wire bytes only',
+    'a ConnectionContext whose protocol_version is re-assigned in place, '
+    'and several contexts alive at once, are supported ways of use '
+    '(Connection.connect does the former on every negotiated connection)',
 ]
 
 # reference name -> (direction, state, pyCraft class, {ref field: attribute})
